@@ -116,6 +116,7 @@ def run(ctx):
     R1 = ctx.rule('C01.R1', 'every input-side per-request field of the reusable front-ends is reset at the request boundary (or survives by design, one reason each)')
     R2 = ctx.rule('C01.R2', 'read-ahead cursors: every copy out of the FastCGI cache / HTTP input buffer / FastCGI body stays inside the buffer (linear proofs under the cursor invariant)')
     R3 = ctx.rule('C01.R3', 'a front-end that never resets (SCGI) is never reused')
+    R4 = ctx.rule('C01.R4', 'HTTP header budget: every pass charges exactly the bytes it hands to the parser (input_body_.size() - input_body_ptr_ at the parse loop), so the 16 KiB header limit does not depend on how the stream was segmented')
     n = reset_rule(ctx, P, R1, 'input')
     ctx.floor(R1, 25)
     sc = P.fn('cppcms::impl::cgi::scgi::keep_alive')
@@ -147,6 +148,51 @@ def run(ctx):
         base = '%s::%s>%s:%s' % (top.brecord.rsplit('::', 1)[-1], top.short, ob.fn.short, ob.kind) if top is not ob.fn else '%s::%s:%s' % (ob.fn.brecord.rsplit('::', 1)[-1], ob.fn.short, ob.kind)
         ctx.check(ob.proved, R2, '%s@L%d' % (base, ob.fn.N(ob.node)['l'] - ob.fn.line), 'not provable: ' + ob.desc, ob.fn.loc(ob.node),
                   detail={'obligation': ob.desc, 'constraints': [repr(c[1]) + (' >= 0' if c[0] == 'ge' else ' == 0') for c in ob.cons][-10:]})
+    # ---------------- R4 header budget counts each byte once
+    from vlib import lin
+    hr = P.fn(HTTP + '::some_headers_data_read')
+    S = lin.Symb(hr)
+    incs = [w for w in q.field_writes(hr, 'http::total_read_') if hr.N(w)['k'] == 'CompoundAssignOperator' and hr.N(w).get('op') == '+=']
+    allw = q.field_writes(hr, 'http::total_read_')
+    ctx.check(len(incs) >= 2 and len(allw) == len(incs), R4, 'some_headers_data_read:budget-only-incremented', 'total_read_ is written other than by += in the read path', hr.where)
+    steps = [i for i in hr.calls() if (hr.bcallee(i) or '').endswith('parser::step')]
+    ctx.require(steps, 'C01.R4: the header parser is not driven from some_headers_data_read')
+    for k, w in enumerate(incs):
+        # the branch (then / else arm, or the whole body) in which this increment sits
+        arm = None
+        for a in hr.ancestors(w):
+            par = hr.parent.get(a)
+            if par is not None and hr.N(par)['k'] == 'IfStmt' and a in (hr.N(par).get('then'), hr.N(par).get('else')):
+                arm = a
+                break
+        ok = arm is not None and not q.loops(hr, arm) and not q.enclosing_loops(hr, w) and q.reaches(hr, w, steps[0])
+        detail = {}
+        if ok:
+            ptrw = [x for x in q.field_writes(hr, 'http::input_body_ptr_') if hr.contains(arm, x)]
+            rsz = [x for x in q.field_calls(hr, 'http::input_body_', 'resize') if hr.contains(arm, x)]
+            order = lambda x: hr.point_of(x)
+            ptr_v = Lin.atom(IP)
+            if ptrw:
+                last = max(ptrw, key=lambda x: (-order(x)[0], order(x)[1]))
+                ptr_v = S.lin(hr.N(last)['ch'][1]) if hr.N(last).get('op') == '=' else None
+            size_v = Lin.atom(ISZ)
+            if rsz:
+                last = max(rsz, key=lambda x: (-order(x)[0], order(x)[1]))
+                size_v = S.lin(hr.args(last)[0])
+                # the operands of the size expression keep their value between the increment and the resize
+                lo, hi = sorted([w, last], key=lambda x: (-order(x)[0], order(x)[1]))
+                for r_ in hr.subtree_refs(hr.args(last)[0]) | hr.subtree_refs(hr.N(w)['ch'][1]):
+                    if r_.startswith(('v:', 'p:')):
+                        for (d_, _) in hr.defs_of_var(r_):
+                            if hr.contains(arm, d_) and hr.point_of(d_) and q.before(hr, lo, d_) and q.before(hr, d_, hi) and d_ not in (lo, hi):
+                                ok = False
+            inc = S.lin(hr.N(w)['ch'][1])
+            detail = {'increment': repr(inc), 'size_at_parse': repr(size_v), 'cursor_at_parse': repr(ptr_v)}
+            ok = ok and ptr_v is not None and (inc - (size_v - ptr_v)).key() == Lin.const(0).key()
+        ctx.check(ok, R4, 'some_headers_data_read:budget#%d:charges-unparsed-bytes' % k, 'the header budget is charged with something other than the bytes about to be parsed (size - cursor)', hr.loc(w), detail=detail)
+    lim = hr.gate_edges(lambda atom, pol: hr.N(atom)['k'] == 'BinaryOperator' and hr.N(atom).get('op') in ('>', '>=') and pol is True and any(model.strip_targs(r).endswith('http::total_read_') for r in hr.subtree_refs(atom)))
+    ctx.check(bool(lim), R4, 'some_headers_data_read:limit-tested', 'the header budget is never compared with a limit', hr.where)
+    ctx.floor(R4, 4)
     ctx.assume('cursor invariants at member-function entry: fastcgi 0 <= cache_start_ <= cache_end_ <= cache_.size(), body_ptr_ <= body_.size(); http input_body_ptr_ <= input_body_.size(); '
                'an asynchronous read completes with at most the number of bytes of the buffer it was given')
     ctx.floor(R2, 12)
